@@ -512,8 +512,18 @@ impl ErdosRenyi for AdjacencyMap {
     fn erdos_renyi(order: usize, p: f64, seed: u64) -> Self {
         #[cfg(graaf_verif)]
         use crate::verif_seam::{
+            atomic,
             available_parallelism,
+            mpsc,
+            scope,
+            spawn,
             thread,
+            AtomicBool,
+            AtomicUsize,
+            Barrier,
+            Condvar,
+            Mutex,
+            RwLock,
         };
 
         assert!(order > 0, "a digraph has at least one vertex");
@@ -999,9 +1009,18 @@ impl RandomTournament for AdjacencyMap {
     fn random_tournament(order: usize, seed: u64) -> Self {
         #[cfg(graaf_verif)]
         use crate::verif_seam::{
+            atomic,
             available_parallelism,
+            mpsc,
+            scope,
             spawn,
+            thread,
+            AtomicBool,
+            AtomicUsize,
+            Barrier,
+            Condvar,
             Mutex,
+            RwLock,
         };
 
         assert!(order > 0, "a digraph has at least one vertex");
@@ -1208,8 +1227,18 @@ impl Union for AdjacencyMap {
     fn union(&self, other: &Self) -> Self {
         #[cfg(graaf_verif)]
         use crate::verif_seam::{
+            atomic,
             available_parallelism,
+            mpsc,
             scope,
+            spawn,
+            thread,
+            AtomicBool,
+            AtomicUsize,
+            Barrier,
+            Condvar,
+            Mutex,
+            RwLock,
         };
 
         let lhs_vec = self
